@@ -4,6 +4,7 @@
 import { createRequire } from "node:module";
 import * as readline from "node:readline";
 import * as path from "node:path";
+import { createHash } from "node:crypto";
 import { pathToFileURL } from "node:url";
 import { parseVal, showVal, showNum, deepFreeze } from "./canon.mjs";
 
@@ -141,7 +142,18 @@ function stable(j) {
   );
 }
 
-class RecordingWriter extends H.Hash256Writer {}
+class RecordingWriter extends H.Hash256Writer {
+  constructor() {
+    super();
+    this.rec = [];
+  }
+  updateBytes(data) {
+    for (const b of data) this.rec.push(b);
+    super.updateBytes(data);
+  }
+}
+const hex = (bytes) => Array.from(bytes, (b) => b.toString(16).padStart(2, "0")).join("");
+const unhex = (s) => Uint8Array.from(s.match(/../g) ?? [], (h) => parseInt(h, 16));
 
 function opts(op) {
   const o = {};
@@ -198,6 +210,26 @@ function runOp(parsers, named, op) {
       return p.hash256();
     case "describe":
       return p.describe();
+    case "hash256rec": {
+      // the byte stream written by hash256(), its digest by the writer, by node:crypto, and the public hash256()
+      const w = new RecordingWriter();
+      const ctx = { writer: w, active: new Map(), nextCycleId: 0 };
+      w.updateTag("beff-hash256-v1");
+      p._runtype.hash256(ctx);
+      const bytes = Uint8Array.from(w.rec);
+      return hex(bytes) + "|" + w.digestHex() + "|" + createHash("sha256").update(bytes).digest("hex") + "|" + p.hash256();
+    }
+    case "writer": {
+      // raw write sequences through the streaming writer vs node:crypto
+      const w = new H.Hash256Writer();
+      const c = createHash("sha256");
+      for (const h of op.writes) {
+        const b = unhex(h);
+        w.updateBytes(b);
+        c.update(b);
+      }
+      return w.digestHex() + "|" + c.digest("hex");
+    }
     case "ctxseq": {
       // a history of schemaWithContext calls on one context
       const ctx = new I.SchemaPrintingContext({
